@@ -1,1 +1,72 @@
-// placeholder
+// K12: RecursionCheck / check_recursion -- included INSIDE `mod prelude` of
+// crates/toml_edit/src/parser/mod.rs under cfg(kani) (private fields are in scope there)
+mod verif_kani_prelude {
+    use super::*;
+    use winnow::error::ErrMode;
+
+    #[kani::proof]
+    #[kani::unwind(4)]
+    fn k12_check_depth() {
+        let d: usize = kani::any();
+        let r = RecursionCheck::check_depth(d);
+        assert!(LIMIT <= 128, "recursion limit is not a small constant");
+        assert!(r.is_err() == (d >= LIMIT), "depth limit not enforced exactly at the bound");
+        kani::cover!(r.is_ok());
+        kani::cover!(r.is_err());
+        core::mem::forget(r);
+    }
+
+    #[kani::proof]
+    #[kani::unwind(4)]
+    fn k12_enter_exit() {
+        let c: usize = kani::any();
+        kani::assume(c < usize::MAX);
+        let mut rc = RecursionCheck { current: c };
+        let r = rc.enter();
+        assert!(rc.current == c + 1);
+        assert!(r.is_ok() == (c + 1 < LIMIT), "limit not enforced exactly at the bound");
+        if r.is_ok() {
+            rc.exit();
+            assert!(rc.current == c, "enter/exit not balanced");
+        }
+        kani::cover!(r.is_ok());
+        kani::cover!(r.is_err());
+        core::mem::forget(r);
+    }
+
+    // check_recursion(p): counter restored whether p succeeds or backtracks; a cut error exactly
+    // when the limit is reached; p is not run in that case
+    #[kani::proof]
+    #[kani::unwind(8)]
+    fn k12_check_recursion() {
+        let c: usize = kani::any();
+        kani::assume(c <= LIMIT);
+        let inner_ok: bool = kani::any();
+        let mut input = new_input("");
+        input.state = RecursionCheck { current: c };
+        let mut ran = false;
+        let r = {
+            let mut p = check_recursion(|_i: &mut Input<'_>| -> ModalResult<()> {
+                ran = true;
+                if inner_ok {
+                    Ok(())
+                } else {
+                    Err(ErrMode::Backtrack(ContextError::new()))
+                }
+            });
+            p.parse_next(&mut input)
+        };
+        if c + 1 < LIMIT {
+            assert!(ran, "inner parser not run below the limit");
+            assert!(input.state.current == c, "recursion counter not restored");
+            assert!(r.is_ok() == inner_ok);
+        } else {
+            assert!(!ran, "inner parser run at the recursion limit");
+            assert!(matches!(&r, Err(ErrMode::Cut(_))), "limit does not produce a cut error");
+        }
+        kani::cover!(c + 1 < LIMIT && inner_ok);
+        kani::cover!(c + 1 < LIMIT && !inner_ok);
+        kani::cover!(c + 1 >= LIMIT);
+        core::mem::forget(r);
+    }
+}
